@@ -85,6 +85,14 @@ def cmd_confirm(sid, full=False):
     try:
         rc, out = sh(["git", "apply", os.path.join(d, "patch.diff")], cwd=wt)
         if rc != 0:
+            rc, out2 = sh(["git", "apply", "--3way", os.path.join(d, "patch.diff")], cwd=wt)
+            if rc == 0:
+                # rebased onto the current HEAD (a later fix: commit touched the same file): store the rebased patch
+                sh(["git", "reset", "-q"], cwd=wt)
+                _, newdiff = sh(["git", "diff", "HEAD", "--", "."], cwd=wt)
+                open(os.path.join(d, "patch.diff"), "w").write(newdiff); diff = newdiff
+                res["rebased"] = True
+        if rc != 0:
             res["apply"] = out; raise RuntimeError("patch does not apply to current /repo HEAD: " + out)
         rc, out = sh(["go", "build", "./..."], cwd=wt)
         res["builds"] = rc == 0
